@@ -903,7 +903,8 @@ fn gen_vec(r: &mut Sm, n: usize, kind: u8) -> Vec<f64> {
             // matters is decided by n * exp(-c) against the rounding bound, not by exp(-c) alone
             if n >= 2 && r.chance(if n > 2000 { 0.5 } else { 0.15 }) {
                 let c = *r.pick(&[3.0, 20.0, 25.0, 28.0, 30.5, 31.5, 32.001, 32.5, 33.0, 34.0, 35.0, 36.5, 38.0, 45.0, 700.0, 745.2]);
-                let top = r.below(n as u64) as usize;
+                // (the dominant entry sits at the very end or the very start in half of the cases)
+                let top = match r.below(4) { 0 => n - 1, 1 => 0, _ => r.below(n as u64) as usize };
                 for (i, x) in v.iter_mut().enumerate() {
                     *x = if i == top { base } else { base - c - r.f64() * 1e-3 };
                 }
